@@ -3,100 +3,127 @@ import LinfaSpec.Model.Scalar
 import LinfaSpec.Model.Gmm
 
 namespace LinfaSpec.Drv.C10
-open LinfaSpec.Proto LinfaSpec.Gmm
+open LinfaSpec LinfaSpec.Proto LinfaSpec.Gmm
+
+instance : NatCast Float32 := ⟨Float32.ofNat⟩
+instance : Transc Float32 := ⟨Float32.sqrt, Float32.exp, Float32.log⟩
 
 /-- tolerant float token -/
 def sh (x : Float) : String := "~" ++ showF64c x
 
-/-- `ln(2π)` as the Rust code computes it: `f64::ln(2. * std::f64::consts::PI)` -/
-def ln2pi : Float := Float.log (2.0 * 3.141592653589793)
-
-/-- `10 · f64::EPSILON`, the EmptyCluster guard -/
-def thr : Float := 10.0 * Float.ofBits 0x3CB0000000000000
-
 def argF64s3 (toks : List String) (key : String) : Option (List (List (List Float))) :=
   (arg toks key).bind (parseList3 parseF64)
 
-/-! ### presentation and conditioning (driver only, not part of the model)
+/-! ### The handlers, written once for both scalar instantiations of the Rust code
 
-Covariances / precisions are printed scale-free: diagonals, and off-diagonal entries divided by
-`sqrt(m_aa m_bb)` — the rounding error of an inner product is bounded relative to that product
-of norms (Cauchy–Schwarz), not relative to the entry, which may cancel to ~0.
+`α` is `Float` (ops without suffix) or `Float32` (ops with the suffix `32`).  Every value crosses the
+protocol as the f64 it widens to (`ofF` / `toF` are exact on those values).
+
+Presentation and conditioning (driver only, not part of the model): covariances / precisions are
+printed scale-free: diagonals (M-step: divided by the square of the data scale `max |x_ij|`, means
+divided by that scale), and off-diagonal entries divided by `sqrt(m_aa m_bb)` — the rounding error of an
+inner product is bounded relative to that product of norms (Cauchy–Schwarz), not relative to the entry,
+which may cancel to ~0.
 
 A probability row is compared only when it is well conditioned: with `δ` a bound on the
 difference of the two sides' weighted log probabilities (`8(d+2)·ε·A`, `A` the magnitude of
 the terms summed), every non-top probability moves by at most `p_j(e^{2δ}−1)`; the row is
-well conditioned when these bounds add up to ≤ 1e-9.  Ill-conditioned lines carry
+well conditioned when these bounds add up to ≤ `ptol` (1e-9 / 1e-4).  Ill-conditioned lines carry
 `margin=0` and are skipped (counted) by the comparison. -/
+section generic
+variable {α : Type} [Add α] [Sub α] [Mul α] [Div α] [Neg α] [LT α] [DecidableLT α]
+  [OfNat α 0] [OfNat α 1] [NatCast α] [Transc α]
 
-def diagOf (d : Nat) (m : List (List Float)) : List Float := (List.range d).map fun a => at2 m a a
-def corrOf (d : Nat) (m : List (List Float)) : List (List Float) :=
+/-- the scalar-specific constants: conversions, machine epsilon, conditioning threshold, upper end of the
+EmptyCluster grey zone -/
+structure Sc (α : Type) where
+  ofF : Float → α
+  toF : α → Float
+  eps : α
+  ptol : α
+  greyHi : α
+
+variable (sc : Sc α)
+
+def shA (x : α) : String := sh (sc.toF x)
+
+/-- `ln(2π)` as the Rust code computes it: `f64::ln(2. * std::f64::consts::PI)`, then cast -/
+def ln2pi : α := sc.ofF (Float.log (2.0 * 3.141592653589793))
+
+/-- `10 · F::epsilon()`, the EmptyCluster guard -/
+def thr : α := sc.ofF 10.0 * sc.eps
+
+def gt (a b : α) : Bool := decide (b < a)
+
+def diagOf (d : Nat) (s2 : α) (m : List (List α)) : List α := (List.range d).map fun a => at2 m a a / s2
+def corrOf (d : Nat) (m : List (List α)) : List (List α) :=
   (List.range d).map fun a => (List.range d).map fun b =>
-    if a = b then 1.0 else at2 m a b / Float.sqrt (at2 m a a * at2 m b b)
+    if a = b then 1 else at2 m a b / Transc.sqrt (at2 m a a * at2 m b b)
 
-def eps : Float := Float.ofBits 0x3CB0000000000000
-
-def mahaAbs (d : Nat) (x mu : List Float) (pc : List (List Float)) : Float :=
+def mahaAbs (d : Nat) (x mu : List α) (pc : List (List α)) : α :=
   sumRange d fun b =>
-    let y := sumRange d fun a => Float.abs ((x.getD a 0 - mu.getD a 0) * at2 pc a b)
+    let y := sumRange d fun a => absS ((x.getD a 0 - mu.getD a 0) * at2 pc a b)
     y * y
 
-def maxF (l : List Float) : Float := l.foldl (fun m g => if g > m then g else m) 0.0
+def maxF (l : List α) : α := l.foldl (fun m g => if m < g then g else m) 0
 
 /-- bound on the difference between two floating-point evaluations of `weightedLogProb` -/
-def deltaOf (d : Nat) (w : List Float) (mu : List (List Float)) (pcs : List (List (List Float)))
-    (x : List Float) : Float :=
+def deltaOf (d : Nat) (w : List α) (mu : List (List α)) (pcs : List (List (List α)))
+    (x : List α) : α :=
+  let half := sc.ofF 0.5
   let mags := (List.range w.length).map fun j =>
-    0.5 * mahaAbs d x (mu.getD j []) (pcs.getD j []) + 0.5 * (d.toFloat * ln2pi)
-      + (sumRange d fun a => Float.abs (Float.log (at2 (pcs.getD j []) a a))) + Float.abs (Float.log (w.getD j 0))
-  8.0 * (d.toFloat + 2.0) * eps * maxF mags
+    half * mahaAbs d x (mu.getD j []) (pcs.getD j []) + half * ((d : α) * ln2pi sc)
+      + (sumRange d fun a => absS (Transc.ln (at2 (pcs.getD j []) a a))) + absS (Transc.ln (w.getD j 0))
+  sc.ofF 8.0 * ((d : α) + sc.ofF 2.0) * sc.eps * maxF mags
 
 /-- total bound on the movement of the probabilities of a row -/
-def errEst (delta : Float) (lr : List Float) : Float :=
+def errEst (delta : α) (lr : List α) : α :=
   let top := argmaxFirst lr
   sumS (((List.range lr.length).filter (· ≠ top)).map fun j =>
     let v := lr.getD j 0
-    Float.exp (v + 2.0 * delta) - Float.exp v)
+    Transc.exp (v + sc.ofF 2.0 * delta) - Transc.exp v)
 
 /-- `false` only when the estimate is a number above the tolerance (NaN compares) -/
-def wellP (delta : Float) (lr : List Float) : Bool := !(errEst delta lr > 1e-9)
+def wellP (delta : α) (lr : List α) : Bool := !(gt (errEst sc delta lr) sc.ptol)
 
-def wellLr (delta : Float) (lpn : Float) (lr : List Float) : Bool :=
+def wellLr (delta : α) (lpn : α) (lr : List α) : Bool :=
   let top := argmaxFirst lr
-  wellP delta lr && !(2.0 * delta > 1e-9 * (if Float.abs lpn > 1.0 then Float.abs lpn else 1.0)) &&
+  let big (a : α) : α := if gt (absS a) 1 then absS a else 1
+  wellP sc delta lr && !(gt (sc.ofF 2.0 * delta) (sc.ptol * big lpn)) &&
   ((List.range lr.length).filter (· ≠ top)).all fun j =>
-    let a := Float.abs (lr.getD j 0)
-    !(2.0 * delta > 1e-9 * (if a > 1.0 then a else 1.0))
+    !(gt (sc.ofF 2.0 * delta) (sc.ptol * big (lr.getD j 0)))
 
 def flag (b : Bool) : Float := if b then 2e-12 else 0.0
 
-structure Mix where
-  w : List Float
-  mu : List (List Float)
-  pc : List (List (List Float))
+structure Mix (α : Type) where
+  w : List α
+  mu : List (List α)
+  pc : List (List (List α))
   d : Nat
 
-def parseMix (toks : List String) : Option Mix := do
+def parseMix (toks : List String) : Option (Mix α) := do
   let w ← argF64s toks "w"
   let mu ← argF64s2 toks "mu"
   let pc ← argF64s3 toks "pc"
   let d := (mu.headD []).length
   if w.length = 0 ∨ mu.length ≠ w.length ∨ pc.length ≠ w.length then none
   else if mu.any (fun r => r.length ≠ d) ∨ pc.any (fun m => m.length ≠ d ∨ m.any (fun r => r.length ≠ d)) then none
-  else some ⟨w, mu, pc, d⟩
+  else some ⟨w.map sc.ofF, mu.map (·.map sc.ofF), pc.map (·.map (·.map sc.ofF)), d⟩
 
-def parseObs (toks : List String) (d : Nat) : Option (List (List Float)) := do
+def parseObs (toks : List String) (d : Nat) : Option (List (List α)) := do
   let x ← argF64s2 toks "x"
-  if x.any (fun r => r.length ≠ d) then none else some x
+  if x.any (fun r => r.length ≠ d) then none else some (x.map (·.map sc.ofF))
 
 def handleEstep (toks : List String) : Option String := do
-  let m ← parseMix toks
-  let x ← parseObs toks m.d
-  let rows := x.map fun xi => logRespStable (weightedLogProb ln2pi m.d m.w m.mu m.pc xi)
-  let well := (x.zip rows).all fun (xi, r) => wellLr (deltaOf m.d m.w m.mu m.pc xi) r.1 r.2
-  some s!"ok lpn={showList sh (rows.map (·.1))} lr={showList2 sh (rows.map (·.2))} margin={sh (flag well)}"
+  let m ← parseMix sc toks
+  let x ← parseObs sc toks m.d
+  let rows := x.map fun xi => logRespStable (weightedLogProb (ln2pi sc) m.d m.w m.mu m.pc xi)
+  let well := (x.zip rows).all fun (xi, r) => wellLr sc (deltaOf sc m.d m.w m.mu m.pc xi) r.1 r.2
+  some s!"ok lpn={showList (shA sc) (rows.map (·.1))} lr={showList2 (shA sc) (rows.map (·.2))} margin={sh (flag well)}"
 
-def handleMstep (toks : List String) : Option String := do
+/-- shared by `mstep` (hook `estimate_gaussian_parameters`) and `mstepfit` (the parameters `fit` returned
+against the M-step of the accepted step's responsibilities); `withNk` prints `nk` and the grey-zone margin -/
+def handleMstep (withNk : Bool) (toks : List String) : Option String := do
   let reg ← argF64 toks "reg"
   let x ← argF64s2 toks "x"
   let r ← argF64s2 toks "r"
@@ -104,44 +131,98 @@ def handleMstep (toks : List String) : Option String := do
   let d := (x.headD []).length
   let k := (r.headD []).length
   if n = 0 ∨ r.length ≠ n ∨ x.any (fun q => q.length ≠ d) ∨ r.any (fun q => q.length ≠ k) then none else
-  match estimateParams thr reg n d k x r with
-  | .error e => some ("err " ++ e)
+  let x := x.map (·.map sc.ofF)
+  let r := r.map (·.map sc.ofF)
+  let s0 := maxF (x.flatten.map absS)
+  let s : α := if (0 : α) < s0 then s0 else 1
+  -- a column mass in [eps, greyHi): the statement does not say whether that component is "emptied"
+  let grey := (nkOf n k r).any fun v => !(decide (v < sc.eps)) && decide (v < sc.greyHi)
+  let mg := if withNk then s!" margin={sh (if grey then 0.0 else 1.0)}" else ""
+  match estimateParams (thr sc) (sc.ofF reg) n d k x r with
+  | .error e => some ("err " ++ e ++ mg)
   | .ok p =>
-    some s!"ok nk={showList showF64 p.nk} w={showList showF64 p.weights} mu={showList2 sh p.means} covdiag={showList2 sh (p.covs.map (diagOf d))} covcorr={showList3 sh (p.covs.map (corrOf d))}"
+    let nk := if withNk then s!"nk={showList (shA sc) p.nk} " else ""
+    some s!"ok {nk}w={showList (shA sc) p.weights} mu={showList2 (shA sc) (p.means.map (·.map (· / s)))} covdiag={showList2 (shA sc) (p.covs.map (diagOf d (s * s)))} covcorr={showList3 (shA sc) (p.covs.map (corrOf d))}{mg}"
+
+/-- one whole EM iteration (`emStep`): from the parameters of the state before the accepted step and the
+records to the parameters `fit` returned; compared when every E-step row is well conditioned -/
+def handleEmstep (toks : List String) : Option String := do
+  let reg ← argF64 toks "reg"
+  let m ← parseMix sc toks
+  let x ← parseObs sc toks m.d
+  if x.length = 0 then none else
+  let well := x.all fun xi =>
+    wellP sc (deltaOf sc m.d m.w m.mu m.pc xi) (logRespStable (weightedLogProb (ln2pi sc) m.d m.w m.mu m.pc xi)).2
+  let s0 := maxF (x.flatten.map absS)
+  let s : α := if (0 : α) < s0 then s0 else 1
+  let d := m.d
+  match emStep (thr sc) (sc.ofF reg) (ln2pi sc) d m.w m.mu m.pc x with
+  | .error e => some s!"err {e} margin={sh (flag well)}"
+  | .ok p =>
+    some s!"ok w={showList (shA sc) p.weights} mu={showList2 (shA sc) (p.means.map (·.map (· / s)))} covdiag={showList2 (shA sc) (p.covs.map (diagOf d (s * s)))} covcorr={showList3 (shA sc) (p.covs.map (corrOf d))} margin={sh (flag well)}"
 
 def handlePrec (toks : List String) : Option String := do
   let pc ← argF64s3 toks "pc"
   let d := (pc.headD []).length
   if pc.any (fun m => m.length ≠ d ∨ m.any (fun r => r.length ≠ d)) then none else
-  let ps := pc.map (precisionsFull d)
-  some s!"ok pdiag={showList2 sh (ps.map (diagOf d))} pcorr={showList3 sh (ps.map (corrOf d))}"
+  let ps := (pc.map (·.map (·.map sc.ofF))).map (precisionsFull d)
+  some s!"ok pdiag={showList2 (shA sc) (ps.map (diagOf d 1))} pcorr={showList3 (shA sc) (ps.map (corrOf d))}"
 
 def handleProba (toks : List String) : Option String := do
-  let m ← parseMix toks
-  let x ← parseObs toks m.d
+  let m ← parseMix sc toks
+  let x ← parseObs sc toks m.d
   let well := x.all fun xi =>
-    wellP (deltaOf m.d m.w m.mu m.pc xi) (logRespStable (weightedLogProb ln2pi m.d m.w m.mu m.pc xi)).2
-  some s!"ok p={showList2 sh (x.map (predictProba ln2pi m.d m.w m.mu m.pc))} margin={sh (flag well)}"
+    wellP sc (deltaOf sc m.d m.w m.mu m.pc xi) (logRespStable (weightedLogProb (ln2pi sc) m.d m.w m.mu m.pc xi)).2
+  some s!"ok p={showList2 (shA sc) (x.map (predictProba (ln2pi sc) m.d m.w m.mu m.pc))} margin={sh (flag well)}"
 
 def minF (l : List Float) : Float :=
   l.foldl (fun m g => if g >= m then m else g) (1.0 / 0.0)
 
 def handlePredict (toks : List String) : Option String := do
-  let m ← parseMix toks
-  let x ← parseObs toks m.d
-  let ps := x.map (predictProba ln2pi m.d m.w m.mu m.pc)
+  let m ← parseMix sc toks
+  let x ← parseObs sc toks m.d
+  let ps := x.map (predictProba (ln2pi sc) m.d m.w m.mu m.pc)
   let labs := ps.map argmaxFirst
   let well := x.all fun xi =>
-    wellP (deltaOf m.d m.w m.mu m.pc xi) (logRespStable (weightedLogProb ln2pi m.d m.w m.mu m.pc xi)).2
-  some s!"ok lab={showList toString labs} margin={sh (if well then minF (ps.map margin) else 0.0)}"
+    wellP sc (deltaOf sc m.d m.w m.mu m.pc xi) (logRespStable (weightedLogProb (ln2pi sc) m.d m.w m.mu m.pc xi)).2
+  some s!"ok lab={showList toString labs} margin={sh (if well then minF (ps.map fun p => sc.toF (margin p)) else 0.0)}"
+
+/-- the loop of `fit` on the recorded chain: `lb` the lower bounds of the successful steps, `err` the
+error of the step after them (`-` = none) -/
+def handleFitwalk (toks : List String) : Option String := do
+  let tol ← argF64 toks "tol"
+  let iters ← argNat toks "iters"
+  let runs ← argNat toks "runs"
+  let lbs ← argF64s toks "lb"
+  let err ← arg toks "err"
+  let tr : List (Except String α) := lbs.map (fun v => .ok (sc.ofF v)) ++ (if err == "-" then [] else [.error err])
+  match fitOutcome (sc.ofF tol) iters runs tr with
+  | .ok i => some s!"ok idx={i}"
+  | .error e => some ("err " ++ e)
+
+end generic
+
+def sc64 : Sc Float := ⟨id, id, Float.ofBits 0x3CB0000000000000, 1e-9, 1e-10⟩
+def sc32 : Sc Float32 :=
+  ⟨Float.toFloat32, Float32.toFloat, Float32.ofBits 0x34000000, (1e-4 : Float).toFloat32, (1e-4 : Float).toFloat32⟩
 
 def handle (toks : List String) : String :=
   let r := match toks with
-    | "estep" :: rest => handleEstep rest
-    | "mstep" :: rest => handleMstep rest
-    | "prec" :: rest => handlePrec rest
-    | "proba" :: rest => handleProba rest
-    | "predict" :: rest => handlePredict rest
+    | "estep" :: rest => handleEstep sc64 rest
+    | "mstep" :: rest => handleMstep sc64 true rest
+    | "mstepfit" :: rest => handleMstep sc64 false rest
+    | "prec" :: rest => handlePrec sc64 rest
+    | "proba" :: rest => handleProba sc64 rest
+    | "predict" :: rest => handlePredict sc64 rest
+    | "fitwalk" :: rest => handleFitwalk sc64 rest
+    | "emstep" :: rest => handleEmstep sc64 rest
+    | "emstep32" :: rest => handleEmstep sc32 rest
+    | "estep32" :: rest => handleEstep sc32 rest
+    | "mstep32" :: rest => handleMstep sc32 true rest
+    | "mstepfit32" :: rest => handleMstep sc32 false rest
+    | "proba32" :: rest => handleProba sc32 rest
+    | "predict32" :: rest => handlePredict sc32 rest
+    | "fitwalk32" :: rest => handleFitwalk sc32 rest
     | _ => none
   r.getD "bad-op"
 
